@@ -36,3 +36,4 @@ class ValidationError(Enum):
     UNKNOWN_ATTRIBUTE = auto()
     UNKNOWN_CONTENT_RULE = auto()
     UNKNOWN_NODE = auto()
+    CONTENT_EXPECTED_INT = auto()
